@@ -322,7 +322,12 @@ def guard_discharges(ctx):
             for s in blk.stmts:
                 if s.kind == "assign" and s.rv.k == "binop" and s.rv.j["op"] == "Shr":
                     shifts.add(s.rv.ops[1].const_int())
-        out[(k, "assert", "Overflow(Shr)")] = (shifts == {6, 7}, "constant shifts %s below the integer width" % sorted(x for x in shifts if x is not None))
+        # (helpers merged into the writer bring their shifts along; named constants are resolved)
+        for cst in binop_consts(ctx, b):
+            if cst[0] in ("Shr", "ShrUnchecked"):
+                shifts.add(cst[1])
+        shifts.discard(None)
+        out[(k, "assert", "Overflow(Shr)")] = (bool(shifts) and shifts <= {6, 7} and 7 in shifts, "constant shifts %s below the integer width" % sorted(shifts))
         out[(k, "assert", "BoundsCheck")] = (any(l["s"] == "[u8; 1]" for l in b.locals), "index 0 of a [u8; 1] buffer")
     # receive_packet: expect / Sub after the frame guard (C04/frame-guard proves dominance)
     rk = "passage_protocol::connection::{impl#0}::receive_packet::{closure#0}::{closure#0}"
